@@ -130,7 +130,12 @@ func (a *updatableAEAD) startKeyDropTimer(now monotime.Time) {
 }
 
 func (a *updatableAEAD) getNextTrafficSecret(hash crypto.Hash, ts []byte) []byte {
-	return hkdfExpandLabel(hash, ts, []byte{}, "quic ku", hash.Size())
+	// QUIC v2 uses its own label for key updates, see section 3.3.2 of RFC 9369.
+	label := "quic ku"
+	if a.version == protocol.Version2 {
+		label = "quicv2 ku"
+	}
+	return hkdfExpandLabel(hash, ts, []byte{}, label, hash.Size())
 }
 
 // SetReadKey sets the read key.
